@@ -58,6 +58,11 @@ CHECKS = {
          "All histories of <=3/4 operations on scope chains of depth 1-3 (keys k1,k2; values 1,2,nil) are compared with the overlay model through plain and locked reads; 33 concurrent programs (locked increments, plain writes/reads, Keys, nested locked reads, the get-or-create services of the task manager, environment and wait-group units) are explored under every schedule with <=3/2 (quick) or <=5/3 (thorough) preemptions; the recorded call/return history must be linearizable and end in the final value, services must return one instance.",
          "2-3 threads; bounds as reported; the content of Keys() is not judged.",
          "DESIGN.md 3/C13"),
+ "C15": ("model_checking",
+         "configuration enumeration (all lock maps over 2 resources for 2-3 holders) x preemption-bounded exhaustive schedule exploration of the real shared mutex, lock-map iteration order as an explored choice",
+         "Every unordered pair and (tiered) triple of lock maps over resources {a,b} is run as holders Lock/enter/exit/Unlock under every schedule within the preemption bound; exclusion is checked at every entry, every compatible pair must overlap in at least one explored execution (so the lock does not serialise readers or disjoint holders), and no schedule may deadlock (the shim models RWMutex writer preference).",
+         "2 resources, 2-3 holders, bounds as reported.",
+         "DESIGN.md 3/C15"),
  "C17": ("exploration",
          "exhaustive enumeration of ALL byte strings up to length 7 (quick) / 9 (thorough) over the 9-symbol alphabet of significant bytes, and of all rendered argument lists (<=3 arguments, 12-entry pool, 3 quoting forms, 4 separators)",
          "Totality is checked on every string; strings without quote/backslash/heredoc against a plain-word reference (per-line fields byte-for-byte, eof flags, exact stop at the newline); strings whose backslashes precede a letter or a continuation newline against the argument-count reference; every rendered list must split back to the original list and leave the next command for the next call; InjectArgs mapping is checked on every list.",
